@@ -6,10 +6,13 @@ ToNatS(s, i, acc) == IF i > Len(s) THEN acc
 MaxCallsDef == ToNatS(IOEnv.MAXCALLS, 1, 0)
 EveryDef == ToNatS(IOEnv.EVERY, 1, 0)
 OffsetDef == ToNatS(IOEnv.OFFSET, 1, 0)
-AllOps == {"Register", "DropObject", "SetDefaultUnitRemoved", "SetTemplate", "AddUnitSystem", "RemoveUnitSystem", "SetCurrent", "SetDefaultUnit", "RemoveCategory", "GetNewId",
+AllOps == {"SetReadOnly", "IsReadOnly", "Register", "DropObject", "SetDefaultUnitRemoved", "SetTemplate", "AddUnitSystem", "RemoveUnitSystem", "SetCurrent", "SetDefaultUnit", "RemoveCategory", "GetNewId",
            "GetCategoryDefaultUnit", "GetCurrentId", "GetUnitSystemById", "GetQuantityDefaultUnit", "ConvertToCurrent", "ConvertScalarToCurrent"}
-OpsDef == IF IOEnv.OPS = "mut" THEN {"Register", "DropObject", "SetDefaultUnitRemoved", "SetTemplate", "AddUnitSystem", "RemoveUnitSystem", "SetCurrent", "SetDefaultUnit", "RemoveCategory"}
-          ELSE AllOps
+RoDef == IF IOEnv.OPS \in {"ro", "allro"} THEN BOOLEAN ELSE {FALSE}
+OpsDef == IF IOEnv.OPS = "ro" THEN {"AddUnitSystem", "RemoveUnitSystem", "SetCurrent", "SetDefaultUnit", "RemoveCategory", "SetReadOnly", "IsReadOnly"}
+          ELSE IF IOEnv.OPS = "allro" THEN AllOps
+          ELSE IF IOEnv.OPS = "mut" THEN {"Register", "DropObject", "SetDefaultUnitRemoved", "SetTemplate", "AddUnitSystem", "RemoveUnitSystem", "SetCurrent", "SetDefaultUnit", "RemoveCategory"}
+          ELSE AllOps \ {"SetReadOnly", "IsReadOnly"}
 TypeDef == [x \in {"length", "depth", "time", "m", "cm", "km", "s", "min"} |-> IF x \in {"length", "depth", "m", "cm", "km"} THEN "length" ELSE "time"]
 FactorDef == [u \in {"m", "cm", "km", "s", "min"} |-> CASE u = "m" -> <<1, 1>> [] u = "cm" -> <<1, 100>> [] u = "km" -> <<1000, 1>> [] u = "s" -> <<1, 1>> [] u = "min" -> <<60, 1>>]
 =============================================================================
